@@ -132,6 +132,14 @@ def check(fx, rep, tier):
         rep.oblige(bool(killed), "R03.1", "stop:killed", F.loc(iff["span"]), "the advance function does not retire a thread that was killed by a halting instruction")
         # the retiring branch pops the thread and stores its state
         retire = iff["then"] if on_else and branch == "else" else iff.get("else") or iff["then"]
+        if branch == "then" and "else" not in iff and T.diverges(iff["then"]):
+            # `if <continues> { step; return Ok(()) }  <retire ...>`: the rest of the enclosing block is the stop branch
+            ik = T._span_key(iff["span"])
+            for anc, key in reversed(ps):
+                if "stmts" in anc and "k" not in anc and any(x is iff for st in anc["stmts"] for x, _ in F.walk(st)):
+                    rest = [st for st in anc["stmts"] if T._span_key(st.get("span") or (st.get("e") or {}).get("span")) and T._span_key(st.get("span") or (st.get("e") or {}).get("span"))[1] >= ik[2]]
+                    retire = {"k": "Block", "span": iff["span"], "block": {"stmts": rest, **({"expr": anc["expr"]} if "expr" in anc else {})}}
+                    break
         names = [F.strip_generics(F.callee(c) or F.callee_def(c) or "") for c, _ in F.calls(retire)]
         pops = any(x.endswith("::pop_front") for x in names)
         stores = any(x.endswith("::push") for x in names)
